@@ -499,6 +499,20 @@ func ruleGlobals(c *Ctx) {
 				if c.isBuiltin(x, "delete") && len(x.Args) > 0 {
 					record(x.Args[0])
 				}
+				// a pointer-receiver method called on a package variable may mutate it (sync.Map.Store, ...)
+				if se, ok := unparen(x.Fun).(*ast.SelectorExpr); ok {
+					if sel := c.Info.Selections[se]; sel != nil && sel.Kind() == types.MethodVal {
+						if id, ok := unparen(se.X).(*ast.Ident); ok {
+							if v, ok := c.objOf(id).(*types.Var); ok && v.Parent() == c.Types.Scope() {
+								if mf, ok := sel.Obj().(*types.Func); ok {
+									if _, isPtr := mf.Type().(*types.Signature).Recv().Type().(*types.Pointer); isPtr && !benignGlobalMethod(mf) {
+										writers[v] = append(writers[v], fn+"(."+mf.Name()+")")
+									}
+								}
+							}
+						}
+					}
+				}
 			}
 			return true
 		})
@@ -516,7 +530,7 @@ func ruleGlobals(c *Ctx) {
 		}
 		switch {
 		case isSync:
-			c.ob(rule, key, v.Pos(), len(ws) == 0, fmt.Sprintf("synchronisation variable reassigned by %v", ws))
+			c.ob(rule, key, v.Pos(), len(ws) == 0, fmt.Sprintf("package-level sync value written or used as a store by %v (a sync.Map is shared mutable state, not a lock)", ws))
 		case isNamed(v.Type(), c.Types, "simpleCache") || types.Implements(v.Type(), c.resolutionCacheIface()):
 			// the package cache: stored only by the function run under sync.Once
 			ok := len(ws) > 0
@@ -838,3 +852,18 @@ func ruleNoGoroutines(c *Ctx) {
 }
 
 var _ = strings.HasPrefix
+
+// benignGlobalMethod: pointer-receiver methods that do not make a package variable a channel between calls.
+func benignGlobalMethod(f *types.Func) bool {
+	if f.Pkg() == nil {
+		return false
+	}
+	sig := f.Type().(*types.Signature)
+	rt := typeNameOf(derefType(sig.Recv().Type()))
+	switch f.Pkg().Path() + "." + rt {
+	case "sync.Once", "sync.Mutex", "sync.RWMutex", "log.Logger":
+		return true
+	}
+	// the package cache's own read-only clone
+	return f.Name() == "ShallowClone"
+}
